@@ -5,3 +5,4 @@ pub mod round;
 pub mod dateadd;
 pub mod tz;
 pub mod fmt;
+pub mod exact;
